@@ -12,6 +12,7 @@ import EpgVerif.Model.ND
 import EpgVerif.Model.Diffusion
 import EpgVerif.Model.Imaging
 import EpgVerif.Model.Exchange
+import EpgVerif.Model.Heap
 /-
   Line-protocol driver over the executable model at `K := CF` (DESIGN Appendix A).
   One request per line; floats travel as the decimal of their IEEE-754 bits.
@@ -124,6 +125,7 @@ structure DState where
   nops : Array (NOp K4 CF) := #[]
   npd : CF := 1
   xs : Array (SM CF) := #[]
+  heap : Heap.World := Heap.init
   items : Array (Sim.Item CF) := #[]
   probes : Array (Option (Sim.AdcSpec CF)) := #[]
 
@@ -466,6 +468,13 @@ def step (d : DState) (line : String) : DState × List String :=
       let g : Nat → CF := fun i => v.getD (n * n + 2 * n + i) 0
       ({ d with xs := (Exch.applyXSM (Exch.expmTaylor n 12 20) (cOfTok tau) khi rT1 rT2 g d.xs.toList).toArray }, [])
   | ["xdump"] => (d, d.xs.toList.map dumpSM)
+  | ["hinit"] => ({ d with heap := Heap.init }, [])
+  | ["h", "apply", h, ip] => ({ d with heap := Heap.step d.heap (.apply h.toNat! (ip == "1")) }, [])
+  | ["h", "copy", h] => ({ d with heap := Heap.step d.heap (.copy h.toNat!) }, [])
+  | ["h", "simulate", h] => ({ d with heap := Heap.step d.heap (.simulate h.toNat!) }, [])
+  | ["h", "acquire", h] => ({ d with heap := Heap.step d.heap (.acquire h.toNat!) }, [])
+  | ["h", "freeze", h] => ({ d with heap := Heap.step d.heap (.freeze h.toNat!) }, [])
+  | ["hdump"] => (d, ["heap " ++ " ".intercalate (d.heap.cellOf.map toString) ++ " | " ++ " ".intercalate (d.heap.version.map toString)])
   | "guard" :: rest => (d, [guardCmd rest])
   | ["dumpd"] => (d, dumpDiff d)
   | ["dumpj"] => (d, dumpJets d)
